@@ -975,6 +975,13 @@ class SymNumpy:
         # C fmod: sign of dividend; callers use it on positive values (x + 7.0)
         return _map(lambda v: (v - y * Sym(z3.ToReal(z3.ToInt((v / y).real()))) if isinstance(v, Sym) else math.fmod(v, y)), x)
 
+    def mean(self, x, axis=None, dtype=None, **k):
+        if not has_sym(x):
+            return _np.mean(defloat(x), axis=axis, dtype=dtype, **k)
+        x = _np.asarray(x, dtype=object)
+        n = x.shape[axis] if axis is not None else x.size
+        return x.sum(axis=axis) / n
+
     def where(self, cond, *a):
         if not has_sym(cond):
             return _np.where(cond, *a)
@@ -1053,6 +1060,9 @@ class SymNumpy:
         return _np.zeros(shape, dtype=dtype, **k) if dtype is not None else _np.zeros(shape, **k)
 
     def empty(self, shape, dtype=None, **k):
+        if active() and self.symbolic_arrays and dtype is not None and _np.dtype(dtype).kind == "c" and "c" in self.object_kinds:
+            from .symc import complex_empty
+            return complex_empty(shape)
         if active() and self.symbolic_arrays and (dtype is None or _np.dtype(dtype).kind in self.object_kinds):
             a = _np.empty(shape, dtype=object)
             a.fill(0.0)
